@@ -43,7 +43,7 @@ func init() {
 	props["C11"] = &propImpl{
 		shards: func(cfg vlib.Cfg) int { return cfg.N(16, 32) },
 		run:    runC11,
-		rule: "c11.tree: PRNG query trees over all 18 operators, and/or/not nesting (depth <= 4 quick / 6 thorough, arity 1-4), key prefixes, orderby/limit/offset, operands: int64 boundaries, floats, booleans, strings and keys over an alphabet with space, tab, newline, quote, backslash, parentheses, comma, multi-byte runes, leading/trailing specials; only trees passing Check(); " +
+		rule: "c11.tree: PRNG query trees over all 18 operators, and/or/not nesting (depth <= 4 quick / 6 thorough, arity 1-4), key prefixes, orderby/limit/offset, operands: int64 boundaries, floats, booleans, In lists of 2-40 unsorted operands with duplicates and prefixes of one another, strings and keys over an alphabet with space, tab, newline, quote, backslash, parentheses, comma, multi-byte runes, leading/trailing specials; only trees passing Check(); " +
 			"c11.recheck: query trees with one deliberately invalid leaf (operand of the wrong type, unparsable number/bool, bad regex, one-element In text, unknown operator): Check() must fail, and keep failing / IsChecked() stay false on the same object; c11.grammar: texts of the README grammar (grouping, no and/or mixing, both not forms, every operator alias, quoted and backslash-escaped tokens, free whitespace) with their intended AST; c11.text: token soups, mutations of valid texts (drop/duplicate/swap tokens, unbalanced quotes and parentheses, trailing backslash, truncation inside multi-byte runes), random bytes. " +
 			"Witnesses: per query ~48 records derived from its own operands (each as struct record and as JSON wrapper) plus fixed ones, and sample keys around the prefix. distinct = distinct (class,input); non-trivial = the query passed Check() and was compared (tree/grammar), or ParseQuery returned (text)",
 		finish: func(cfg vlib.Cfg, r *vlib.Report) {
@@ -685,10 +685,35 @@ func (g *c11Gen) leaf() *c11Node {
 	case 's':
 		n.S = c11Str(r, r.Chance(1, 4), true)
 	case 'l':
+		// 2..40 operands, in no particular order, with duplicates and operands that are
+		// prefixes / extensions of one another
 		cnt := r.Range(2, 4)
+		switch r.Intn(4) {
+		case 0:
+			cnt = r.Range(5, 12)
+		case 1:
+			cnt = r.Range(8, 40)
+		}
 		for i := 0; i < cnt; i++ {
 			e := strings.ReplaceAll(c11Str(r, r.Chance(1, 3), true), ",", ";")
+			if i > 0 && r.Chance(1, 4) {
+				prev := n.L[r.Intn(len(n.L))]
+				switch r.Intn(3) {
+				case 0:
+					e = prev // duplicate
+				case 1:
+					e = prev + vlib.Pick(r, "a", "0", "z", " ")
+				default:
+					if len(prev) > 0 {
+						_, w := utf8.DecodeLastRuneInString(prev)
+						e = prev[:len(prev)-w]
+					}
+				}
+			}
 			n.L = append(n.L, e)
+		}
+		if cnt >= 8 && r.Chance(1, 6) {
+			sort.Sort(sort.Reverse(sort.StringSlice(n.L))) // descending is "unsorted" as well
 		}
 	case 'r':
 		n.S = c11Regexes[r.Intn(len(c11Regexes))].re
@@ -860,12 +885,22 @@ func c11ValFor(r *vlib.Rand, l *c11Node) (c11Val, bool) {
 		}
 	case 'l':
 		joined := strings.Join(l.L, ",")
-		switch r.Intn(5) {
-		case 0, 1:
+		switch r.Intn(8) {
+		case 0, 1, 5, 6: // each operand gets its turn as the record's value
 			if len(l.L) > 0 {
 				return c11Val{T: 's', S: l.L[r.Intn(len(l.L))]}, true
 			}
 			return c11Val{T: 's', S: ""}, true
+		case 7: // near misses of an operand
+			if len(l.L) > 0 {
+				e := l.L[r.Intn(len(l.L))]
+				if r.Bool() || e == "" {
+					return c11Val{T: 's', S: e + vlib.Pick(r, "a", "x", " ", "0")}, true
+				}
+				_, w := utf8.DecodeLastRuneInString(e)
+				return c11Val{T: 's', S: e[:len(e)-w]}, true
+			}
+			return c11Val{T: 's', S: "q"}, true
 		case 2:
 			parts := strings.Split(joined, ",")
 			return c11Val{T: 's', S: parts[r.Intn(len(parts))]}, true
@@ -1303,6 +1338,15 @@ func c11TryCandidates(q c11Query, typed map[string]byte, try func(c11Query) bool
 			if len(n.L) > 2 && offer(func(c *c11Query) { m := at(c.Where, p); m.L = m.L[:2] }) {
 				return hit, true
 			}
+			if len(n.L) > 4 && offer(func(c *c11Query) { m := at(c.Where, p); m.L = m.L[:len(m.L)/2] }) {
+				return hit, true
+			}
+			for i := range n.L {
+				i := i
+				if len(n.L) > 2 && offer(func(c *c11Query) { m := at(c.Where, p); m.L = append(m.L[:i:i], m.L[i+1:]...) }) {
+					return hit, true
+				}
+			}
 		}
 	}
 	for _, p := range lpaths {
@@ -1425,6 +1469,9 @@ func c11Shape(q c11Query) string {
 					if e != "" { // an empty In element is ordinary
 						note("val", e)
 					}
+				}
+				if len(n.L) > 2 { // the failure needs a list of that length
+					feats[fmt.Sprintf("inlist=%d", len(n.L))] = true
 				}
 			}
 			return "L"
